@@ -138,6 +138,7 @@ class UnitResult:
 
 NOT_SUPPORTED_RE = re.compile(r"error: `([^`]+)` is not supported.*?The following declaration may resolve this error:\n(.*?)\n\n", re.S)
 MISSING_FN_RE = re.compile(r"error\[E0425\]: cannot find function `(\w+)` in this scope")
+MISSING_VALUE_RE = re.compile(r"error\[E0425\]: cannot find value `([A-Z][A-Z0-9_]*)` in this scope")
 
 
 def auto_repair(text, stderr, ex, done):
@@ -178,6 +179,26 @@ def auto_repair(text, stderr, ex, done):
                     t = A.RULES[rule](t, log)
                 adds.append('// auto-repair: helper extracted verbatim from %s (no contract)\n%s' % (rec['file'], t))
                 notes.append('helper fn %s extracted from %s' % (fn, rec['file']))
+                break
+    # (c) a `const` of the same source file that a changed function now refers to is extracted verbatim
+    for m in MISSING_VALUE_RE.finditer(stderr):
+        cn = m.group(1)
+        if cn in done:
+            continue
+        done.add(cn)
+        for rec in ex.records:
+            if rec['file'].startswith('dep:'):
+                continue
+            try:
+                sf = A.load_source(rec['file'])
+            except Exception:
+                continue
+            found = [it for it in sf.items if it.kind == 'const' and it.name == cn]
+            if len(found) == 1:
+                log = []
+                t = A.RULES['R0'](found[0].text, log)
+                adds.append('// auto-repair: const extracted verbatim from %s\n%s' % (rec['file'], t))
+                notes.append('const %s extracted from %s' % (cn, rec['file']))
                 break
     if not adds:
         return None, []
@@ -269,7 +290,9 @@ def run_unit(unit_path, tier='quick', seed=0, hooks=None):
         if repairs:
             # A proof that passes with havoc specs / uncontracted helpers is sound; one that fails is NOT a
             # violation (the automatic specs are too weak to decide): undecided, to be settled by a concrete replay.
-            if res['status'] == 'violation':
+            # (A `const` extracted verbatim is exact, not an over-approximation: it weakens nothing.)
+            weak = [x for x in repairs if not x.startswith('const ')]
+            if res['status'] == 'violation' and weak:
                 res['undecided'].append('after automatic repair (%s) these obligations do not verify: %s'
                                         % ('; '.join(repairs), ', '.join(f['function'] for f in res['failed'])))
                 res['weak_failed'] = res['failed']
@@ -281,16 +304,19 @@ def run_unit(unit_path, tier='quick', seed=0, hooks=None):
         if 'vacuity' in jobs:
             rv = jobs['vacuity'].result()
             bd = breakdown(rv['json'], name + '__vacuity')
+            missing_canaries = []
             for fn in ex.contracted:
                 hits = [k for k in bd if k == fn or k.endswith('::' + fn)]
                 if not hits:
                     res['canaries'].append(dict(kind='vacuity', name=fn, status='missing'))
-                    res['undecided'].append('vacuity canary for %s not reported' % fn)
+                    missing_canaries.append(fn)
                 elif all(bd[k]['success'] for k in hits):
                     res['canaries'].append(dict(kind='vacuity', name=fn, status='VACUOUS'))
                     res['undecided'].append('precondition of %s is contradictory (assert(false) verified)' % fn)
                 else:
                     res['canaries'].append(dict(kind='vacuity', name=fn, status='rejected'))
+            if missing_canaries:
+                res['undecided'].append('vacuity canary not reported for %d function(s): %s' % (len(missing_canaries), ', '.join(missing_canaries[:6]) + (' ...' if len(missing_canaries) > 6 else '')))
         for key, val in jobs.items():
             if not key.startswith('mut:'):
                 continue
